@@ -195,8 +195,8 @@ func genC11Cases(r *mon.Run) []c11Case {
 				for _, reg := range regimes {
 					mixes := []string{"B", "B+H", "2B+H"}
 					if !r.Thorough() {
-						// quick: one PRNG-chosen mix per row, biased to the ones with an honest peer
-						mixes = []string{[]string{"B", "B+H", "B+H", "2B+H"}[rng.IntN(4)]}
+						// quick: B+H plus one PRNG-chosen other mix per row
+						mixes = []string{"B+H", []string{"B", "2B+H"}[rng.IntN(2)]}
 					}
 					for _, mix := range mixes {
 						stream++
@@ -209,16 +209,16 @@ func genC11Cases(r *mon.Run) []c11Case {
 			}
 		}
 		// multi-chunk scenarios around the 100-block request split
-		for i := 0; i < r.Pick(2, 4); i++ {
+		for i := 0; i < r.Pick(6, 6); i++ {
 			stream++
 			cases = append(cases, c11Case{Stream: stream, Target: "SendV2Blocks", Fault: "same-id-other-body", Pos: "first-chunk", Regime: "below", Mix: "B+H", Phased: false, Special: "two-chunks"})
 		}
-		for i := 0; i < r.Pick(1, 3); i++ {
+		for i := 0; i < r.Pick(2, 3); i++ {
 			stream++
 			cases = append(cases, c11Case{Stream: stream, Target: "SendCheckpoint", Fault: "state-for-unvalidated-block", Regime: "above", Mix: "B+H", Phased: true, Special: "cross-boundary"})
 		}
 		// a block id poisoned by a same-id block with another body, then mined by the honest peer
-		for i := 0; i < r.Pick(2, 4); i++ {
+		for i := 0; i < r.Pick(3, 4); i++ {
 			stream++
 			mix := "B+H"
 			if i == 1 {
@@ -1264,7 +1264,7 @@ func runByzCase(r *mon.Run, cc c11Case) {
 					cs = append(cs, c)
 				}
 				sortStrings(cs)
-				sig = "stall:honest-peer-banned:" + strings.Join(cs, "+") + ":" + f.Target + "/" + f.Name
+				sig = "stall:honest-peer-banned:" + strings.Join(cs, "+")
 			}
 			fmt.Printf("note: C11 stream=%d %s mix=%s phased=%v victim=%v want=%d peers=%v\n", cc.Stream, sig, cc.Mix, cc.Phased, v.Mon.Tip() != nil && v.Mon.Tip() == sc.hTip, sc.hTip.Height, peersNow)
 			r.Violation(sig, "with an honest peer holding the heaviest valid chain connected, the victim did not reach that chain within the bound", cc, detail())
